@@ -398,7 +398,7 @@ fn drop_closure<'tcx>(tcx: TyCtxt<'tcx>, glue: Instance<'tcx>) -> J {
     q.push_back((glue, 0usize));
     while let Some((inst, depth)) = q.pop_front() {
         let name = inst_name(tcx, inst);
-        if !seen.insert(name.clone()) || depth > 8 {
+        if !seen.insert(name.clone()) || depth > 24 {
             continue;
         }
         let Some(body) = mono_body(tcx, inst, TypingEnv::fully_monomorphized()) else {
